@@ -1,14 +1,14 @@
 (** C13 – progress-bar geometry (and the fraction clause of C07).
 
     Bit-exact, executable transcription (Flocq [BinarySingleNaN], binary32 =
-    prec 24 / emax 128, round-to-nearest-even) of
+    prec 24 / emax 128, round-to-nearest-even) of (line numbers: /repo HEAD 7d42cff)
 
-      ProgressState::fraction            /repo/src/state.rs:281-290
-      ProgressStyle::format_bar          /repo/src/style.rs:191-232
-      BarDisplay / RepeatedStringDisplay /repo/src/style.rs:688-719  (Display)
-      the "bar" arm of format_state      /repo/src/style.rs:265-274  (width.unwrap_or(20))
-      PaddedStringDisplay, no-excess arm /repo/src/style.rs:747-761  ({bar:N} is padded to N)
-      WideElement::expand, Bar arm       /repo/src/style.rs:452-460  ({wide_bar})
+      ProgressState::fraction            /repo/src/state.rs:286-295
+      ProgressStyle::format_bar          /repo/src/style.rs:193-234
+      BarDisplay / RepeatedStringDisplay /repo/src/style.rs:698-729  (Display)
+      the "bar" arm of format_state      /repo/src/style.rs:267-276  (width.unwrap_or(20))
+      PaddedStringDisplay, no-excess arm /repo/src/style.rs:757-771  ({bar:N} is padded to N)
+      WideElement::expand, Bar arm       /repo/src/style.rs:456-464  ({wide_bar})
 
     Definitions only; the proofs are in proofs/BarGeomProofs.v.
     usize is 64 bits (x86_64, the platform the harness runs on). *)
@@ -16,6 +16,13 @@ From IndModel Require Export Base.
 From IndGen Require Import Constants.
 From Flocq Require Import Core BinarySingleNaN.
 Open Scope N_scope.
+
+(** ** vocabulary of the statements in props/C13.v (hypotheses only; nothing below computes with them)
+    [W24] = 2^24: every integer up to it is a binary32 value - the bound on bar widths (the code has
+    u16 <= 65535) and, in G7 / G2 / fraction_below_one, on the length.
+    [len_wf]: a known length is a u64. *)
+Definition W24 : N := 16777216.
+Definition len_wf (len : option N) : Prop := match len with Some l => l < U64 | None => True end.
 
 (** ** binary32 *)
 Notation f32_prec := 24%Z (only parsing).
@@ -56,7 +63,7 @@ Definition f_fract (x : f32) : f32 := f_sub x (f_trunc x).
 Definition f_clamp01 (x : f32) : f32 :=
   if f_lt x f_zero then f_zero else if f_lt f_one x then f_one else x.
 
-(** ** ProgressState::fraction  (state.rs:281-290)
+(** ** ProgressState::fraction  (state.rs:286-295)
       let pct = match (pos, self.len) {
           (_, None) => 0.0,
           (_, Some(0)) => 1.0,
@@ -72,7 +79,7 @@ Definition fraction (pos : N) (len : option N) : f32 :=
     | Some l => if pos =? 0 then f_zero else f_div (f_of_N pos) (f_of_N l)
     end.
 
-(** ** ProgressStyle::format_bar  (style.rs:191-232) *)
+(** ** ProgressStyle::format_bar  (style.rs:193-234) *)
 Record bar := mkbar {
   b_cells : N;          (* width / char_width *)
   b_fill : f32;         (* fract * cells as f32 *)
@@ -84,20 +91,20 @@ Record bar := mkbar {
 Definition b_head (b : bar) : N := match b_cur b with Some _ => 1 | None => 0 end.
 
 Definition format_bar (fract : f32) (width c nchars : N) : bar :=
-  let w := width / c in                               (* :193  (c > 0: builder assert, style.rs:153) *)
-  let fill := f_mul fract (f_of_N w) in               (* :195 *)
-  let filled := f_to_usize fill in                    (* :197 *)
-  let head := f_lt f_zero fill && (filled <? w) in    (* :200 *)
+  let w := width / c in                               (* :195  (c > 0: builder assert, style.rs:153-156) *)
+  let fill := f_mul fract (f_of_N w) in               (* :197 *)
+  let filled := f_to_usize fill in                    (* :199 *)
+  let head := f_lt f_zero fill && (filled <? w) in    (* :202 *)
   let cur :=
     if head then
-      let n := nchars - 2 in                          (* :204 saturating_sub *)
-      Some (if n <=? 1 then 1                          (* :205-208 *)
-            else n - f_to_usize (f_mul (f_fract fill) (f_of_N n)))  (* :212 saturating_sub *)
+      let n := nchars - 2 in                          (* :206 saturating_sub *)
+      Some (if n <=? 1 then 1                          (* :207-210 *)
+            else n - f_to_usize (f_mul (f_fract fill) (f_of_N n)))  (* :214 saturating_sub *)
     else None in
-  let bg := (w - filled) - (if head then 1 else 0) in (* :220 saturating_sub twice *)
+  let bg := (w - filled) - (if head then 1 else 0) in (* :222 saturating_sub twice *)
   mkbar w fill filled cur bg.
 
-(** ** Display of the bar (style.rs:695-719): indices into progress_chars, one per cell *)
+(** ** Display of the bar (style.rs:705-729): indices into progress_chars, one per cell *)
 Definition rep {A} (n : N) (x : A) : list A := repeat x (N.to_nat n).
 
 Definition bar_cells (b : bar) (nchars : N) : list N :=
@@ -125,7 +132,7 @@ Definition bar_text (chars : list (list N)) (c : N) (fract : f32) (width : N) : 
 (** columns of a bar: every cluster is [c] columns wide *)
 Definition bar_cols (b : bar) (c nchars : N) : N := c * nlen (bar_cells b nchars).
 
-(** ** {bar:N} / {bar}: style.rs:265-274 then the padding of style.rs:365-378, 747-761.
+(** ** {bar:N} / {bar}: style.rs:267-276 then the padding of style.rs:369-382, 757-771.
     The bar never exceeds N columns, so only the padding arm runs. *)
 Inductive align := ALeft | ACenter | ARight.
 Definition SP : N := 32.
@@ -153,9 +160,9 @@ Definition bar_line (chars : list (list N)) (c : N) (w : option N) (a : align)
       end
   end.
 
-(** ** {wide_bar}: style.rs:452-460.  [pre]/[suf] is the rest of the line (text before /
+(** ** {wide_bar}: style.rs:456-464.  [pre]/[suf] is the rest of the line (text before /
     after the placeholder), [rest] its width in columns, [tw] the terminal width. *)
-Definition wide_left (tw rest : N) : N := tw - rest.           (* :452 saturating_sub *)
+Definition wide_left (tw rest : N) : N := tw - rest.           (* :456 saturating_sub *)
 
 Definition wide_line (chars : list (list N)) (c : N) (pre suf : list N) (rest tw : N)
            (pos : N) (len : option N) : option (list N) :=
